@@ -19,6 +19,8 @@ func init() {
 			ruleChunkHeaderCodec(c, r, t, "")
 			ruleWriterChunkLegality(c, r, t, "")
 			ruleStartChunkEffects(c, r, t, "")
+			ruleRawEOFFlag(c, r, "")
+			ruleBudgetFresh(c, r, "")
 			ruleChunkLimits(c, r, "")
 			ruleWriter2(c, r, t, "")
 			r.Floor("SEQ-STARTCHUNK", 7)
